@@ -120,12 +120,19 @@ pub fn replay(path: &str) -> Value {
         }
     }
     // COLORTERM x truecolor, separately
-    for (v, exp) in [("unset", false), ("", false), ("truecolor", true), ("24bit", true), ("yes", false), ("256", false), ("TRUECOLOR", false)] {
-        apply("COLORTERM", v);
-        checks += 1;
-        if anstyle_query::truecolor() != exp {
-            bad += 1;
-            println!("{}", json!({"mismatch":{"config":{"COLORTERM":v},"what":"truecolor","observed":!exp,"expected":exp}}));
+    // (crossed with every other variable: the COLORTERM probe looks at COLORTERM only)
+    for (other, val) in [("TERM", "unset"), ("TERM", "dumb"), ("TERM", ""), ("TERM", "xterm-256color"), ("NO_COLOR", "1"), ("CLICOLOR", "0"), ("CLICOLOR_FORCE", "1"), ("CI", "true")] {
+        for v in ["NO_COLOR", "CLICOLOR_FORCE", "CLICOLOR", "TERM", "CI"] {
+            apply(v, "unset");
+        }
+        apply(other, val);
+        for (v, exp) in [("unset", false), ("", false), ("truecolor", true), ("24bit", true), ("yes", false), ("256", false), ("TRUECOLOR", false)] {
+            apply("COLORTERM", v);
+            checks += 1;
+            if anstyle_query::truecolor() != exp {
+                bad += 1;
+                println!("{}", json!({"mismatch":{"config":{"COLORTERM":v, other:val},"what":"truecolor","observed":!exp,"expected":exp}}));
+            }
         }
     }
     let _ = std::fs::remove_file(&tmp);
